@@ -131,15 +131,30 @@ Proof.
   destruct upw as [|b tl]; [contradiction|]. apply andb_false_r.
 Qed.
 
+(* no owner password supplied: the owner is not authenticated for revision 5 and 6, whatever /O says *)
+Lemma no_owner_password_not_authenticated : forall R ownerMatches, R = 5 \/ R = 6 ->
+  validateOwnerPassword R [] ownerMatches = false.
+Proof.
+  intros R ownerMatches [HR|HR]; subst R; unfold validateOwnerPassword; reflexivity.
+Qed.
+
+Lemma wrong_owner_password_not_authenticated : forall R opw, validateOwnerPassword R opw false = false.
+Proof.
+  intros R opw. unfold validateOwnerPassword.
+  destruct (R =? 5); [destruct (validateOwnerPasswordAES256_noOwnerPW opw); reflexivity|].
+  destruct (R =? 6); [destruct (validateOwnerPasswordAES256Rev6_noOwnerPW opw); reflexivity|].
+  reflexivity.
+Qed.
+
 Lemma user_password_access : forall mode e m, In (mode, (e, m)) perm_table ->
-  forall opw upw P R, upw <> [] ->
-  checkForEncryption true false true true opw upw mode P R =
+  forall ownerMatches opw upw P R, upw <> [] -> validateOwnerPassword R opw ownerMatches = false ->
+  checkForEncryption true ownerMatches true true opw upw mode P R =
     if rejectsEncrypted mode then EncryptedUnsupported
     else if needsOwnerAndUserPassword mode then OwnerRequired
     else if refuses e m P R then Denied else Proceed.
 Proof.
-  intros mode e m Hin opw upw P R Hne.
-  unfold checkForEncryption, setupAccess, handlePermissions. cbn [negb andb].
+  intros mode e m Hin ownerMatches opw upw P R Hne Hown.
+  unfold checkForEncryption, setupAccess, handlePermissions. rewrite Hown. cbn [negb andb].
   rewrite (hasNeeded_of_row mode e m P R (perm_lookup_row _ _ _ Hin)).
   rewrite (supplied_of_nonempty_upw opw upw Hne).
   destruct (rejectsEncrypted mode); [reflexivity|].
@@ -148,18 +163,32 @@ Proof.
 Qed.
 
 Lemma user_password_access_no_row : forall mode, perm_lookup perm_table mode = None ->
-  forall opw upw P R, upw <> [] ->
-  checkForEncryption true false true true opw upw mode P R =
+  forall ownerMatches opw upw P R, upw <> [] -> validateOwnerPassword R opw ownerMatches = false ->
+  checkForEncryption true ownerMatches true true opw upw mode P R =
     if rejectsEncrypted mode then EncryptedUnsupported
     else if needsOwnerAndUserPassword mode then OwnerRequired
     else Proceed.
 Proof.
-  intros mode Hl opw upw P R Hne.
-  unfold checkForEncryption, setupAccess, handlePermissions. cbn [negb andb].
+  intros mode Hl ownerMatches opw upw P R Hne Hown.
+  unfold checkForEncryption, setupAccess, handlePermissions. rewrite Hown. cbn [negb andb].
   rewrite (hasNeeded_no_row mode P R Hl).
   rewrite (supplied_of_nonempty_upw opw upw Hne).
   destruct (rejectsEncrypted mode); [reflexivity|].
   destruct (needsOwnerAndUserPassword mode); cbn [negb andb]; reflexivity.
+Qed.
+
+(* the consequence for the property: a revision 5/6 document opened WITHOUT an owner password goes through
+   the permission check even when its owner password is the empty string (ownerMatches = true) *)
+Lemma no_owner_password_consults_permissions : forall mode e m, In (mode, (e, m)) perm_table ->
+  forall ownerMatches upw P R, R = 5 \/ R = 6 -> upw <> [] ->
+  checkForEncryption true ownerMatches true true [] upw mode P R =
+    if rejectsEncrypted mode then EncryptedUnsupported
+    else if needsOwnerAndUserPassword mode then OwnerRequired
+    else if refuses e m P R then Denied else Proceed.
+Proof.
+  intros mode e m Hin ownerMatches upw P R HR Hne.
+  apply (user_password_access mode e m Hin ownerMatches [] upw P R Hne).
+  apply no_owner_password_not_authenticated. exact HR.
 Qed.
 
 (* commands that insist on both passwords have no permission requirement in the table *)
@@ -181,11 +210,12 @@ Proof.
   - apply hasNeeded_no_row. exact Hl.
 Qed.
 
-Lemma owner_never_denied : forall encrypted userOK permsOK opw upw mode P R,
-  checkForEncryption encrypted true userOK permsOK opw upw mode P R <> Denied.
+Lemma owner_never_denied : forall encrypted ownerMatches userOK permsOK opw upw mode P R,
+  validateOwnerPassword R opw ownerMatches = true ->
+  checkForEncryption encrypted ownerMatches userOK permsOK opw upw mode P R <> Denied.
 Proof.
-  intros encrypted userOK permsOK opw upw mode P R.
-  unfold checkForEncryption, handleUnencryptedFile, setupAccess, handlePermissions. cbn [negb andb].
+  intros encrypted ownerMatches userOK permsOK opw upw mode P R Hown.
+  unfold checkForEncryption, handleUnencryptedFile, setupAccess, handlePermissions. rewrite Hown. cbn [negb andb].
   destruct encrypted; cbn [negb].
   - destruct (rejectsEncrypted mode); [discriminate|].
     destruct (needsOwnerAndUserPassword mode) eqn:Hnb; cbn [negb].
@@ -241,13 +271,14 @@ Proof. vm_compute. reflexivity. Qed.
 
 (* consequence: a classified command that the specification says must be refused does not proceed *)
 Lemma classified_refuses : forall m, classified_ok m = true ->
-  forall opw upw P R, upw <> [] -> spec_must_refuse (spec_kind m) P R = true ->
-  checkForEncryption true false true true opw upw m P R <> Proceed.
+  forall ownerMatches opw upw P R, upw <> [] -> validateOwnerPassword R opw ownerMatches = false ->
+  spec_must_refuse (spec_kind m) P R = true ->
+  checkForEncryption true ownerMatches true true opw upw m P R <> Proceed.
 Proof.
-  intros m Hc opw upw P R Hne Hmust.
+  intros m Hc ownerMatches opw upw P R Hne Hown Hmust.
   unfold classified_ok in Hc. apply orb_true_iff in Hc.
   destruct (perm_lookup perm_table m) as [[e mo]|] eqn:Hl.
-  - rewrite (user_password_access m e mo (In_of_lookup _ _ _ Hl) opw upw P R Hne).
+  - rewrite (user_password_access m e mo (In_of_lookup _ _ _ Hl) ownerMatches opw upw P R Hne Hown).
     destruct (rejectsEncrypted m); [discriminate|].
     destruct (needsOwnerAndUserPassword m); [discriminate|].
     destruct Hc as [Hc|Hc]; [|discriminate].
@@ -257,15 +288,16 @@ Proof.
     + rewrite Hc, Hmust. rewrite orb_true_r. discriminate.
     + apply andb_true_iff in Hmust. destruct Hmust as [Hx Hy]. rewrite Hx, Hy.
       rewrite !andb_true_r. rewrite Hc. discriminate.
-  - rewrite (user_password_access_no_row m Hl opw upw P R Hne).
+  - rewrite (user_password_access_no_row m Hl ownerMatches opw upw P R Hne Hown).
     destruct (rejectsEncrypted m); [discriminate|].
     destruct Hc as [Hc|Hc]; [|discriminate].
     destruct (spec_kind m); cbn in Hc, Hmust; discriminate.
 Qed.
 
 Lemma spec_refusal_partial : forall m, In m all_modes -> ~ In m known_unclassified ->
-  forall opw upw P R, upw <> [] -> spec_must_refuse (spec_kind m) P R = true ->
-  checkForEncryption true false true true opw upw m P R <> Proceed.
+  forall ownerMatches opw upw P R, upw <> [] -> validateOwnerPassword R opw ownerMatches = false ->
+  spec_must_refuse (spec_kind m) P R = true ->
+  checkForEncryption true ownerMatches true true opw upw m P R <> Proceed.
 Proof.
   intros m Hin Hnot. destruct (every_mode_classified_partial m Hin) as [H|H].
   - contradiction.
